@@ -418,6 +418,41 @@ fn check_log(w: &mut World, n: usize, _kind: &TxnKind, uid: Option<usize>, pre: 
                 ),
             ));
         }
+        // "equal to the emitting document": not only what is visible. A follower whose state
+        // vector lags or that has not been told about a deletion answers the next sync request
+        // differently than the leader would.
+        // (not after a crash: the recovered leader has lost stashed and un-exposed data that its
+        // new followers are only told about again as the run goes on)
+        if w.stats.f_crash == 0 && !has_missing(&doc) && has_missing(&f) {
+            return Err(viol(
+                "log.follower-state",
+                format!(
+                    "passive follower {} (fed only by the {} update events of node {}) reports missing updates although the leader does not: the events do not carry what their own successors depend on",
+                    k,
+                    ["v1", "v2", "alternating v1/v2"][k],
+                    n
+                ),
+            ));
+        }
+        if w.stats.f_crash == 0 && !has_missing(&doc) && !has_missing(&f) {
+            let (ls, fs) = (doc_sv(&doc), doc_sv(&f));
+            let (ld, fdel) = (crate::world::doc_ds(&doc), crate::world::doc_ds(&f));
+            if ls != fs || ld != fdel {
+                return Err(viol(
+                    "log.follower-state",
+                    format!(
+                        "passive follower {} (fed only by the {} update events of node {}) shows the same content but not the same state\n  leader  : sv {:?} deleted {:?}\n  follower: sv {:?} deleted {:?}",
+                        k,
+                        ["v1", "v2", "alternating v1/v2"][k],
+                        n,
+                        ls,
+                        ld,
+                        fs,
+                        fdel
+                    ),
+                ));
+            }
+        }
     }
     Ok(())
 }
@@ -488,6 +523,42 @@ fn check_gc(w: &mut World, n: usize, kind: &TxnKind, uid: Option<usize>, pre: &P
                         d
                     ),
                 ));
+            }
+        }
+    }
+    // whatever the undo manager's stacks say was deleted must still have its content
+    if n == 0 && matches!(kind, TxnKind::Gc | TxnKind::Undo | TxnKind::Local) {
+        if let Some((um, _)) = w.mon.sticky.um.as_ref() {
+            let full = {
+                let t = w.nodes[0].doc.transact();
+                t.encode_state_as_update_v1(&StateVector::default())
+            };
+            if let Ok(u) = Update::decode_v1(&full) {
+                let blocks = yrs::verif::update_blocks(&u);
+                let mut needed: Vec<(u64, u32, u32)> = Vec::new();
+                for st in um.undo_stack().iter().chain(um.redo_stack().iter()) {
+                    for (client, ranges) in st.deletions().iter() {
+                        for r in ranges.iter() {
+                            needed.push((client.get(), r.start, r.end));
+                        }
+                    }
+                }
+                if !needed.is_empty() {
+                    w.probe("gc.undo-needed-content-checked");
+                }
+                for (c, s, e) in needed {
+                    for (id, len, k) in blocks.iter() {
+                        if id.client.get() == c && id.clock < e && s < id.clock + len && (*k == "gc" || *k == "deleted") {
+                            return Err(viol(
+                                "gc.undo-content-collected",
+                                format!(
+                                    "node 0: the undo manager's stacks refer to the deleted range {}#{}..{}, but the block {}#{}+{} in it has been garbage collected ({}): undo/redo can no longer restore it",
+                                    c, s, e, c, id.clock, len, k
+                                ),
+                            ));
+                        }
+                    }
+                }
             }
         }
     }
